@@ -697,7 +697,7 @@ def dense_specs(draw, g: dict, N: int, classes=None):
     if classes is not None:
         names = [n for n in names if n in classes]
     name = draw(st.sampled_from(names))
-    spec = {"cls": name, "route": draw(st.sampled_from(["ctor", "ctor_param", "data_", "inplace"]))}
+    spec = {"cls": name, "route": draw(st.sampled_from(["ctor", "ctor_param", "data_", "data_after_eval", "inplace"]))}
     if name == "DisplacementFieldTransform":
         spec["field"] = draw(st.sampled_from(["affine", "noise"]))
     elif name == "FreeFormDeformation":
@@ -802,6 +802,13 @@ def build_dense(spec: dict, grid, g: dict):
         t.update()
         with torch.no_grad():
             t.params.copy_(p)
+    elif spec["route"] == "data_after_eval":
+        # the fresh (identity) transform is evaluated first, so that buffered vector fields exist; replacing the
+        # parameters must invalidate them: every view - also disp()/forward() called directly - describes the new map
+        t = cls(grid, groups=N, params=True, **kw)
+        t.update()
+        t.disp()
+        t.data_(p)
     else:
         t = cls(grid, groups=N, params=True, **kw)
         t.data_(p)
@@ -1156,6 +1163,16 @@ def run_views(case, dense: bool):
     worst = 0.0
     if t.axes().value != ax or t.align_corners() != m.ac:
         raise Violation("axes_accessor", f"{tag}.axes() = {t.axes().value} for grid.align_corners() = {m.ac}")
+    if dense and spec.get("route") == "data_after_eval":
+        # data_() replaced the parameters after buffers existed: the dense field obtained right away - without a call
+        # that runs the update() pre-hook - must already describe the new parameters
+        T_now = t.tensor()
+        want_now = np.stack([np.moveaxis(r.disp(cube_coords(tuple(g["size"][::-1]), m.ac), b), -1, 0) for b in range(N)])
+        if tuple(T_now.shape) == want_now.shape:
+            worst = max(worst, check_close(T_now, want_now, K * EPS32 * (1.0 + r.shift()) + r.extra, f"tensor_after_data_:{tag}",
+                                           f"{tag}.tensor() right after data_() on a transform that had been evaluated before"))
+        else:
+            raise Violation(f"tensor_shape:{tag}", f"tensor() has shape {tuple(T_now.shape)}, expected {want_now.shape}")
     # forward
     xc = arrange(cube_points(m, case["rel"]), case["Nb"], case["form"])
     x = torch.tensor(xc, dtype=dt)
